@@ -61,3 +61,24 @@ def _rm(p):
         os.unlink(p)
     except OSError:
         pass
+
+
+def minimise_case(u, case, profile, still_fails):
+    """Greedy removal of corruption operators while still_fails(case) holds.
+    Returns the smallest failing case found (1-minimal)."""
+    keep = list(range(len(case.op_patches)))
+    if len(keep) <= 1:
+        return case
+    changed = True
+    cur = case
+    while changed and len(keep) > 1:
+        changed = False
+        for i in list(keep):
+            trial = [k for k in keep if k != i]
+            c2 = u.subset(case, trial, profile)
+            if still_fails(c2):
+                keep = trial
+                cur = c2
+                changed = True
+                break
+    return cur
